@@ -620,4 +620,155 @@ theorem v1_headerValid (t a : Str) :
     · by_cases h4 : x = ['e', 'd', '2', '5', '5', '1', '9', '-', 'n', 'k', 'e', 'y'] <;> simp [h3, h4]
   · simp [h1]
 
+/-! ## C06: exports — `ServiceLatency.Validate`, `Export.Validate` (catalogue rows E0–E13), read through the struct tags -/
+
+theorem v2_latencyValidate (l : Jwt.Val) (vr : V2.T_ValidationResults) :
+    V2.ServiceLatency_Validate (V2.T_ServiceLatency.ofVal l) vr = some (push vr (validateLatency l)) := by
+  unfold V2.ServiceLatency_Validate validateLatency V2.T_ServiceLatency.ofVal
+  simp only [v2_subjectValidate, v2_hasWildCards, v2_addError]
+  generalize (l.field "sampling").asInt = sm
+  generalize (l.field "results").asStr = r
+  by_cases h0 : sm = 0
+  · subst h0
+    cases hw : hasWildCards r <;> simp [errIf, push_push, hw]
+  · have h0' : (sm != 0) = true := by simpa using h0
+    by_cases h1 : sm < 1 <;> by_cases h2 : sm > 100 <;> cases hw : hasWildCards r <;>
+      simp [errIf, push_push, hw, h0, h0', h1, h2] <;> omega
+
+theorem ite_some {α : Type} (c : Prop) [Decidable c] (a b : α) : (if c then some a else some b) = some (if c then a else b) := by
+  by_cases h : c <;> simp [h]
+theorem ite_and (a b : Bool) : (if a = true then b else false) = (a && b) := by cases a <;> simp
+theorem ite_or (a b : Bool) : (if a = true then true else b) = (a || b) := by cases a <;> simp
+theorem push_ite (c : Prop) [Decidable c] (vr : V2.T_ValidationResults) (is : List Issue) :
+    (if c then push vr is else vr) = push vr (if c then is else []) := by
+  by_cases h : c <;> simp [h]
+
+/-- `Export.Validate` on the pointer value an exports list holds, read through the struct tags; `Info.Validate` is a
+parameter (`opq`) assumed to behave as the model's `validateInfo` -/
+theorem v2_exportValidate (env : VEnv) (opq : V2.Opq)
+    (hInfo : ∀ (e : Jwt.Val) (vr : V2.T_ValidationResults),
+      opq.Info_Validate (V2.T_Info.ofVal e) vr = some (push vr (validateInfo env e)))
+    (ev : Jwt.Val) (vr : V2.T_ValidationResults) :
+    V2.Export_Validate (optOfVal V2.T_Export.ofVal ev) vr opq = some (push vr (validateExport env ev)) := by
+  unfold V2.Export_Validate validateExport
+  cases hd : ev.deref with
+  | none =>
+    have : optOfVal V2.T_Export.ofVal ev = none := by
+      cases ev <;> simp [Jwt.Val.deref, optOfVal] at hd ⊢
+    simp [this, v2_addError]
+  | some e =>
+    have hev : optOfVal V2.T_Export.ofVal ev = some (V2.T_Export.ofVal e) := by
+      cases ev <;> simp [Jwt.Val.deref, optOfVal] at hd ⊢
+      exact congrArg _ hd
+    rw [hev]
+    have hS : (['S', 'i', 'n', 'g', 'l', 'e', 't', 'o', 'n'] : Str) = Gen.V2.cResponseTypeSingleton := rfl
+    have hC : (['C', 'h', 'u', 'n', 'k', 'e', 'd'] : Str) = Gen.V2.cResponseTypeChunked := rfl
+    have hT : (['S', 't', 'r', 'e', 'a', 'm'] : Str) = Gen.V2.cResponseTypeStream := rfl
+    -- the latency block
+    have hlat : ∀ (w : V2.T_ValidationResults),
+        (match optOfVal V2.T_ServiceLatency.ofVal (e.field "service_latency") with
+          | none => none
+          | some l => V2.ServiceLatency_Validate l w) =
+        (match (e.field "service_latency").deref with
+          | none => none
+          | some l => some (push w (validateLatency l))) := by
+      intro w
+      cases hl : e.field "service_latency" <;> simp [optOfVal, Jwt.Val.deref, v2_latencyValidate]
+    -- the token position block
+    simp only [Option.isNone_some, Bool.false_eq_true, if_false, V2.Export_IsService, V2.Export_IsStream,
+      V2.Export_IsSingleResponse, V2.Export_IsChunkedResponse, V2.Export_IsStreamResponse, V2.T_Export.ofVal,
+      v2_addError, v2_subjectValidate, v2_hasWildCards, hInfo, Option.pure_def, Option.bind_eq_bind, Option.bind_some,
+      ite_some, ite_and, ite_or, push_ite, push_push, isService, isStream, hS, hC, hT]
+    generalize (e.field "type").asInt = ty
+    generalize (e.field "response_type").asStr = rt
+    generalize (e.field "allow_trace").asBool = tr
+    generalize (e.field "response_threshold").asInt = thr
+    generalize (e.field "subject").asStr = subj
+    generalize (e.field "account_token_position").asInt = pos
+    have hsplit : len (split subj ['.']) = ((splitOn '.' subj).length : Int) := by simp [len, GoRt.split]
+    simp only [hsplit]
+    -- the token the position names, when it is in range
+    have hidx : pos > 0 → ¬ pos > ((splitOn '.' subj).length : Int) →
+        idx (split subj ['.']) (usub pos 1) = some ((splitOn '.' subj)[pos.toNat - 1]?.getD []) := by
+      intro h1 h2
+      have hu : usub pos 1 = ((pos.toNat - 1 : Nat) : Int) := by unfold usub; split <;> omega
+      have hlt : pos.toNat - 1 < (splitOn '.' subj).length := by omega
+      rw [hu, idx_nat]; simp [GoRt.split, hlt]
+    cases hl : e.field "service_latency" <;>
+      by_cases hp : pos > 0 <;> by_cases hw : hasWildCards subj = true <;>
+      by_cases hlen : pos > ((splitOn '.' subj).length : Int) <;>
+      simp [optOfVal, Jwt.Val.deref, validateExportLatency, v2_latencyValidate, validateTokenPos, validateExportStream,
+        errIf, push_push, hp, hw, hlen, hidx]
+
+/-! ## C06: mappings — `Mapping.Validate` (rows W1–W3; the weights are summed over the integers) -/
+
+def effW (wm : V2.T_WeightedMapping) : Int := if wm.f_Weight = 0 then 100 else wm.f_Weight
+
+theorem v2_getWeight (wm : V2.T_WeightedMapping) : V2.WeightedMapping_GetWeight wm = some (effW wm) := by
+  unfold V2.WeightedMapping_GetWeight effW
+  by_cases h : wm.f_Weight = 0 <;> simp [h]
+
+/-- issues of one `from -> [weighted mappings]` entry -/
+def mappingIssues (p : Str × List V2.T_WeightedMapping) : List Issue :=
+  validateSubject p.1 ++ p.2.flatMap (fun wm => validateSubject wm.f_Subject) ++ errIf ((p.2.map effW).sum > 100)
+
+theorem v2_mapping_inner (wms : List V2.T_WeightedMapping) :
+    ∀ (i : Int) (vr : V2.T_ValidationResults) (t : Int),
+    forRangeFrom (ρ := V2.T_ValidationResults) V2.Mapping_Validate.loop2 i wms (vr, t) =
+      some (.done (push vr (wms.flatMap (fun wm => validateSubject wm.f_Subject)), t + (wms.map effW).sum)) := by
+  induction wms with
+  | nil => intro i vr t; simp [forRangeFrom]
+  | cons w ws ih =>
+    intro i vr t
+    simp [forRangeFrom, V2.Mapping_Validate.loop2, v2_subjectValidate, v2_getWeight, ih, push_push, Int.add_assoc]
+
+theorem v2_mappingValidate (m : GoMap Str (List V2.T_WeightedMapping)) (vr : V2.T_ValidationResults) :
+    V2.Mapping_Validate m vr = some (push vr ((mapEntries m).flatMap mappingIssues)) := by
+  have hb : ∀ (i : Int) (p : Str × List V2.T_WeightedMapping) (w : V2.T_ValidationResults),
+      V2.Mapping_Validate.loop1 i p w = some (.next (push w (mappingIssues p))) := by
+    intro i p w
+    obtain ⟨frm, wms⟩ := p
+    simp only [V2.Mapping_Validate.loop1, v2_subjectValidate, forRange, v2_mapping_inner, v2_addError, mappingIssues]
+    by_cases h : (wms.map effW).sum > 100 <;> simp [h, errIf, push_push]
+  have hf : ∀ (xs : List (Str × List V2.T_WeightedMapping)) (w : V2.T_ValidationResults),
+      xs.foldl (fun st x => push st (mappingIssues x)) w = push w (xs.flatMap mappingIssues) := by
+    intro xs
+    induction xs with
+    | nil => intro w; simp
+    | cons x xs ih => intro w; simp [ih, push_push]
+  simp [V2.Mapping_Validate, forRange, forRangeFrom_fold _ _ hb, hf]
+
+/-- `Exports.HasExportContainingSubject`: null entries are skipped -/
+theorem v2_hasExportContaining (es : List (Option V2.T_Export)) (subject : Str) :
+    V2.Exports_HasExportContainingSubject es subject =
+      some (es.any fun e => match e with | none => false | some x => isContainedIn subject x.f_Subject) := by
+  have hb : ∀ (i : Int) (e : Option V2.T_Export), V2.Exports_HasExportContainingSubject.loop1 subject i e () =
+      some (if (match e with | none => false | some x => isContainedIn subject x.f_Subject) then .ret true else .next ()) := by
+    intro i e
+    cases e with
+    | none => simp [V2.Exports_HasExportContainingSubject.loop1]
+    | some x => cases h : isContainedIn subject x.f_Subject <;>
+        simp [V2.Exports_HasExportContainingSubject.loop1, v2_isContainedIn, h]
+  simp only [V2.Exports_HasExportContainingSubject, forRange, forRangeFrom_search _ _ true hb]
+  cases h : es.any (fun e => match e with | none => false | some x => isContainedIn subject x.f_Subject) <;> simp [h]
+
+/-- the model's `validateMappings` (over decoded values) is `mappingIssues` on the entries read through the struct tags -/
+theorem validateMappings_eq (m : Jwt.Val) :
+    validateMappings m =
+      (m.asMap.map fun p => (p.1, p.2.asList.map V2.T_WeightedMapping.ofVal)).flatMap mappingIssues := by
+  unfold validateMappings
+  rw [List.flatMap_map]
+  congr 1
+  funext p
+  obtain ⟨frm, wms⟩ := p
+  simp only [mappingIssues, List.flatMap_map, List.map_map]
+  have : (fun wm => effW (V2.T_WeightedMapping.ofVal wm)) = effWeight := by
+    funext wm
+    unfold effWeight effW V2.T_WeightedMapping.ofVal
+    by_cases h : (wm.field "weight").asInt = 0 <;> simp [h]
+  have h2 : (fun wm => validateSubject (V2.T_WeightedMapping.ofVal wm).f_Subject) =
+      (fun wm : Jwt.Val => validateSubject (wm.field "subject").asStr) := by
+    funext wm; simp [V2.T_WeightedMapping.ofVal]
+  simp [Function.comp_def, this, h2]
+
 end Jwt.FnTie
